@@ -344,5 +344,5 @@ def main(ctx):
     ctx.pmap('grid_shard', [(k, 16) for k in range(16)])
     ctx.exhaustive = True
     ctx.extra['exhaustive_scope'] = 'the configuration grid described in the rule (undefined cells excluded)'
-    n = 600 if ctx.tier == 'quick' else 20000
+    n = 2000 if ctx.tier == 'quick' else 20000
     ctx.pmap('hyp_shard', [(k, n // 4) for k in range(4)])
